@@ -146,6 +146,8 @@ public:
     Heap<ElimLt>        elim_heap;
     int                 bwdsub_assigns;
     vec<uint32_t>       elimclauses;
+    vec<char>           in_elimclauses;  // variables occurring in the clauses stored for model extension
+    bool isNeededForModelExtension(Var v) const override { return v < in_elimclauses.size() and in_elimclauses[v]; }
     vec<char>           touched;
     int                 n_touched;
 
